@@ -5,7 +5,8 @@ loops over the descriptor tables, the queue of unsolicited events, the public fu
 the mutex; third pass: the two flush engines and the reader as functions of the answer of the io
 oracle, the starters of the printers, the list printer, parse_write_args / format_read_args /
 format_test_args around the typed decoders and formatters, the arguments of the handler calls,
-cat_init), and driver of the "handler tie": a Coq proof, re-checked on every run, that the Gallina
+cat_init; fourth pass: the getters of the buffers, of the current variable and of the new-line
+string), and driver of the "handler tie": a Coq proof, re-checked on every run, that the Gallina
 definition GENERATED from the C source of a function equals the HAND-WRITTEN model function of
 coq/Fsm.v for ALL descriptors and ALL states.
 
@@ -125,6 +126,19 @@ Translation rules (everything else is refused: 'unsupported', never guessed)
     call_cmd_test_by_fsm) is generated as a value of HandlerTieLib.hcall (which handler, on which
     command, buffer pointer, size pointer, integers: see HANDLER_CALL_FIELDS) and tied to the
     request the model builds (HandlerTie.v.in expected_*_call, hreq_of_call).
+  * GETTERS (fourth pass, GETTER_FUNCTIONS): the two buffer-size getters, the two buffer-pointer
+    getters, get_var_by_fsm, get_new_line_chars, get_left_buffer_space_by_fsm,
+    get_current_buffer_by_fsm.  Pure functions state -> option T.  Those that read self->desc see it
+    through HandlerTieLib.cdesc_of D junk (C has a pointer unsolicited_buf AND a size
+    unsolicited_buf_size, the model one option: `junk` is the size field when the pointer is NULL and
+    the ties hold for all junk).  A `char *` into desc->buf / desc->unsolicited_buf is option (array,
+    offset) (bufptr), a pointer into a string literal option (bytes, offset) (strptr), NULL is None;
+    &P[e] and P + e are ptr_add.  size_t: x >> c is x / 2^c, x / c for a positive literal c.  The sizes
+    are tied to Defs.asz_of / usz_of (Nat.div2_div, for all sizes), the pointers to
+    HandlerTieLib.atcmd_ptr / unsol_ptr, and the pseudo unit buffer_regions instantiates the region
+    lemma HandlerTieLib.generated_regions (proved once from the four equalities) with the four
+    GENERATED getters: command region inside buf, event region disjoint from it and inside buf
+    (shared) or inside unsolicited_buf (separate).
   * cat_init: see INIT_FUNCTION in section 1.
   * The public functions that take the mutex: see API_FUNCTIONS in section 1.
   * Besides whole functions, three PARTS of functions are tied (see the tables of section 1):
@@ -168,7 +182,11 @@ COQ_TYPE = {"nat": "nat", "byte": "N", "lane": "N", "Z": "Z", "bool": "bool", "t
             "fsm": "fsm", "vaccess": "vaccess", "cmdrec": "cmd", "grp": "grp", "varrec": "var",
             "cmdidx": "nat", "ringref": "nat", "cmdptr": "option nat", "cmdrecopt": "option cmd",
             "str": "list N", "vtype": "vtype", "ask": "option (oreq * state)",
-            "i64": "Z", "u64": "N", "hcall": "hcall"}
+            "i64": "Z", "u64": "N", "hcall": "hcall",
+            "bufptr": "option bufptr", "strptr": "option strptr", "varidx": "nat"}
+#   bufptr (a `char *` into desc->buf / desc->unsolicited_buf: option (which array, offset), NULL =
+#   None)  strptr (a `const char *` into a string literal: option (bytes of the literal, offset))
+#   varidx (self->var: the index of the variable among those of the current command)
 #   i64 / u64 (an int64_t / uint64_t VALUE: Z / N, its mathematical value)
 #   str (a NUL-terminated C string that is only printed: list N, its bytes without the NUL)
 
@@ -362,8 +380,10 @@ CHAR_NAMES = {0: "ch_NUL", 10: "ch_LF", 13: "ch_CR", 44: "ch_COMMA", 61: "ch_EQ"
 # ---- helper calls: a call of the C function is translated to a call of the MODEL function.
 #      {s} = current state, {0},{1}.. = translated arguments after self.  The helpers that are in
 #      HANDLER_FUNCTIONS are themselves tied by this tool, the LEAF_HELPERS by leaf_translate.py;
-#      for the others (loops, formatted printing, bit operations: ASSUMED_HELPERS, listed in every
-#      report) "C function ~ model function of that name" is an ASSUMPTION of this tie.
+#      the GETTER_FUNCTIONS too (fourth pass); for the others (the typed decoders / validators /
+#      formatters and print_string_to_buf: ASSUMED_HELPERS, listed in every report) "C function ~
+#      model function of that name" is an ASSUMPTION of THIS tie -- each of them is tied by a sibling
+#      translator (TIED_ELSEWHERE).
 # state transformers (called as statements):           model term,                argument kinds
 STATE_HELPERS = {
     "ack_error":                          ("ack_error {s}", []),
@@ -458,6 +478,48 @@ PARTIAL_HELPERS = {
 POINTER_VALUE_HELPERS = {
     "get_command_by_fsm":   ("cmdptr", "g_cmd {0} {s}", ["fsm"]),
 }
+# ---- THE GETTERS (fourth pass): small pure functions that the tables above map to model terms and that
+#      are themselves translated and tied here.  C function: (kind of the result, it reads the
+#      descriptor).  They are translated as pure functions  state -> option T  (NULL / a size_t
+#      subtraction that would wrap around = None); those that read the descriptor take one more
+#      parameter, `junk` (see DESC_FIELDS).  Only inside these functions:
+#        self->desc->F                      DESC_FIELDS / DESC_POINTERS  (through the C view of the
+#                                           descriptor, HandlerTieLib.cdesc_of D junk: in shared mode
+#                                           unsolicited_buf is NULL and unsolicited_buf_size holds
+#                                           `junk`, an arbitrary value the ties quantify over)
+#        P == NULL / P != NULL, &P[e], P + e, c ? P : Q, (char * )P     on such pointers (ptr_add)
+#        static const char *x = "LIT"; / static const char x[] = "LIT";   (x never assigned) a pointer
+#                                           into the literal: Some (bytes of LIT, 0)  (strptr)
+#        (struct cat_variable * )self->var  the index Defs.k_var / u_var  (varidx)
+#        get_atcmd_buf(self) / get_unsolicited_buf(self) as VALUES        PTR_HELPERS
+GETTER_FUNCTIONS = {
+    "get_atcmd_buf_size":           ("nat", True),      # tied to Some (Defs.asz_of D)
+    "get_unsolicited_buf_size":     ("nat", True),      # Some (Defs.usz_of D)
+    "get_atcmd_buf":                ("bufptr", True),   # HandlerTieLib.atcmd_ptr D = Some (PB_buf, 0)
+    "get_unsolicited_buf":          ("bufptr", True),   # unsol_ptr D = (PB_ubuf, 0) / (PB_buf, uoff_of D)
+    "get_var_by_fsm":               ("varidx", False),  # Some (Defs.g_var f s)
+    "get_new_line_chars":           ("strptr", False),  # its view = Fsm.nl_chars s ++ [NUL]
+    "get_left_buffer_space_by_fsm": ("nat", False),     # HandlerTieLib.left_space f s
+    "get_current_buffer_by_fsm":    ("bufptr", False),  # HandlerTieLib.cur_ptr D f s
+}
+GETTER_RETURN_TYPES = {"nat": ("size_t",), "bufptr": ("char *", "uint8_t *"), "strptr": ("const char *",),
+                       "varidx": ("struct cat_variable *", "const struct cat_variable *",
+                                  "struct cat_variable const *")}
+CDESC = "(cdesc_of D junk)"
+DESC_FIELDS = {"buf_size": ("nat", "cd_buf_size {v}"),
+               "unsolicited_buf_size": ("nat", "cd_ubuf_size {v}")}
+DESC_POINTERS = {"buf": ("bufptr", "cd_buf_ptr {v}"),
+                 "unsolicited_buf": ("bufptr", "cd_ubuf_ptr {v}")}
+PTR_KINDS = ("bufptr", "strptr")
+BYTE_POINTER_TYPES = ("char *", "uint8_t *", "unsigned char *")          # qualifiers removed
+# the two buffer pointers as VALUES inside a getter: the model terms their ties are stated against
+PTR_HELPERS = {"get_atcmd_buf": ("bufptr", "atcmd_ptr D"),
+               "get_unsolicited_buf": ("bufptr", "unsol_ptr D")}
+# pseudo unit: the region lemma (HandlerTieLib.generated_regions) instantiated with the four generated
+# buffer getters -- the two regions are disjoint and inside the arrays of the descriptor
+BUFFER_REGIONS = "buffer_regions"
+REGION_GETTERS = ("get_atcmd_buf_size", "get_unsolicited_buf_size", "get_atcmd_buf",
+                  "get_unsolicited_buf")
 # ---- POINTER STORES (the only assignments of pointer type that are accepted):
 #   self->cmd = NULL                                   setk_cmd None          (same for u)
 #   self->cmd = get_command_by_index(self, e)          setk_cmd (Some e)
@@ -539,12 +601,27 @@ HANDLER_FUNCTIONS = [
     "format_read_args", "format_test_args",
     # the two wrappers around the read / test handler calls (see HANDLER_CALL_FIELDS)
     "call_cmd_read_by_fsm", "call_cmd_test_by_fsm",
+    # fourth pass: the getters (GETTER_FUNCTIONS)
+    "get_atcmd_buf_size", "get_unsolicited_buf_size", "get_atcmd_buf", "get_unsolicited_buf",
+    "get_var_by_fsm", "get_new_line_chars", "get_left_buffer_space_by_fsm",
+    "get_current_buffer_by_fsm",
 ]
 
+# helpers that the tables map to model terms and that are NOT tied by this tool.  All of them are tied
+# by a sibling translator (TIED_ELSEWHERE; anything else would be reported as assumed_helpers_untied)
 ASSUMED_HELPERS = sorted(
     (set(STATE_HELPERS) | set(VALUE_HELPERS) | set(PARTIAL_HELPERS) | set(PAIR_HELPERS)
      | set(OUT_HELPERS))
     - set(HANDLER_FUNCTIONS) - set(LEAF_HELPERS))
+TIED_ELSEWHERE = {
+    "parse_int_decimal": "tools/codec_translate.py", "parse_uint_decimal": "tools/codec_translate.py",
+    "parse_num_hexadecimal": "tools/codec_translate.py", "parse_buffer_hexadecimal": "tools/codec_translate.py",
+    "parse_buffer_string": "tools/codec_translate.py", "validate_int_range": "tools/codec_translate.py",
+    "validate_uint_range": "tools/codec_translate.py",
+    "format_int_decimal": "tools/format_translate.py", "format_uint_decimal": "tools/format_translate.py",
+    "format_num_hexadecimal": "tools/format_translate.py", "format_buffer_hexadecimal": "tools/format_translate.py",
+    "format_buffer_string": "tools/format_translate.py", "print_string_to_buf": "tools/format_translate.py",
+}
 
 # ---- the four loops that call a command handler: only what happens AFTER the call is translated
 #      (`switch (<the call>) { case CAT_RETURN_STATE_..: .. }`), as a function g_<fn>_post of the
@@ -931,6 +1008,7 @@ class FunctionTranslator:
                                          # function of the answer of the oracle it calls
         self.oracle_sites = 0            # oracle call sites translated so far
         self.ptr_origin = {}             # Coq name of a pointer local -> (helper it came from, fsm term)
+        self.getter = None               # GETTER_FUNCTIONS entry: (kind of the result, reads the descriptor)
 
     # ---- names -----------------------------------------------------------------------
     def fresh(self, base, bare_first=False):
@@ -1054,6 +1132,9 @@ class FunctionTranslator:
             special = self.struct_member(node, s, env, G)
             if special is not None:
                 return special
+            dm = self.desc_member(node)
+            if dm is not None:
+                return dm
             f = self.field_of(node)
             if f is None:
                 refuse(node, "unmapped member access '.%s'" % node.get("name"))
@@ -1067,6 +1148,8 @@ class FunctionTranslator:
                 if f[1] not in table:
                     refuse(node, "field '%s' is not in the mapping table" % f[1])
                 k, proj, _ = table[f[1]]
+                if k == "varidx" and self.getter is not None and self.getter[0] == "varidx":
+                    return Ex("varidx", "%s (%s %s)" % (proj, rec, s))    # the pointer as a VALUE
                 if k in ("wbuf", "varidx"):
                     refuse(node, "field '%s' is only mapped for the listed pointer stores" % f[1])
                 if any(env[i][1] == k for i in self.out_ids):
@@ -1186,6 +1269,20 @@ class FunctionTranslator:
             and idx.get("referencedDecl", {}).get("id") == self.loop["index_id"] \
             and self.loop["is_array"](base)
 
+    def desc_member(self, node):
+        """self->desc->F inside a getter that reads the descriptor (DESC_FIELDS / DESC_POINTERS)."""
+        if self.getter is None or node.get("kind") != "MemberExpr":
+            return None
+        for table in (DESC_FIELDS, DESC_POINTERS):
+            name = node.get("name")
+            if name in table and self.is_desc_member(node, name):
+                if not self.getter[1]:
+                    refuse(node, "self->desc->%s read in a getter that is not declared to read the "
+                                 "descriptor" % name)
+                k, tmpl = table[name]
+                return Ex(k, tmpl.format(v=CDESC))
+        return None
+
     def is_desc_member(self, node, name):
         """node = self->desc-><name>"""
         n = strip_casts(node)
@@ -1235,6 +1332,10 @@ class FunctionTranslator:
             k, tmpl, kinds = VALUE_HELPERS[name]
             args = self.call_args(node, name, kinds, s, env, G, leaf=name in LEAF_HELPERS)
             return Ex(k, tmpl.format(*args, s=s))
+        if name in PTR_HELPERS and self.getter is not None:
+            k, term = PTR_HELPERS[name]
+            self.call_args(node, name, [], s, env, G)
+            return Ex(k, term)
         if name in PARTIAL_HELPERS:
             k, tmpl, kinds = PARTIAL_HELPERS[name]
             args = self.call_args(node, name, kinds, s, env, G)
@@ -1311,6 +1412,17 @@ class FunctionTranslator:
                 return e
             if ck in ("NullToPointer",):
                 return Ex("null", None)
+            if ck in ("BitCast", "ArrayToPointerDecay") and self.getter is not None:
+                if ck == "ArrayToPointerDecay" and strip(sub).get("kind") == "DeclRefExpr" and \
+                        env.get(strip(sub).get("referencedDecl", {}).get("id"), (None, None))[1] == "strptr":
+                    return self.read_lvalue(sub, s, env, G)          # static const char x[] = "LIT"
+                if ck == "ArrayToPointerDecay" and strip(sub).get("kind") == "StringLiteral":
+                    return Ex("strptr", "Some (%s, 0)" % self.c_string_bytes(strip(sub)))
+                if ck == "BitCast" and c_type_name(node) in BYTE_POINTER_TYPES:
+                    e = self.ex(sub, s, env, G)      # (char * )p on a pointer to bytes: the same pointer
+                    if e.kind in PTR_KINDS + ("null",):
+                        return e
+                    refuse(node, "conversion of a %s to a pointer to bytes" % e.kind)
             if ck in ("BitCast", "ArrayToPointerDecay") and node.get("kind") == "ImplicitCastExpr":
                 if ck == "ArrayToPointerDecay" and strip(sub).get("kind") == "DeclRefExpr" and \
                         env.get(strip(sub).get("referencedDecl", {}).get("id"), (None, None))[1] == "str":
@@ -1342,6 +1454,12 @@ class FunctionTranslator:
                 ge = self.group_cmd_element(a, s, env, G)
                 if ge is not None:                                   # &g->cmd[e]: a descriptor
                     return Ex("cmdrecopt", "nth_error (grp_cmds %s) %s" % (ge[0], par(ge[1])))
+                if self.getter is not None and a.get("kind") == "ArraySubscriptExpr":
+                    b = self.ex(a["inner"][0], s, env, G)            # &P[e] on a pointer to bytes
+                    if b.kind in PTR_KINDS:
+                        i = self.value_ex(a["inner"][1], "nat", s, env, G)
+                        return Ex(b.kind, "ptr_add %s %s" % (par(b.term), par(i.term)))
+                    refuse(node, "address of an element of something that is not a mapped pointer to bytes")
             if op == "~" and c_type_name(node) == "int":
                 e = self.as_mint(sub, self.ex(sub, s, env, G))
                 return Ex("mint", "Z.lnot %s" % par(e.term), rng=(-e.rng[1] - 1, -e.rng[0] - 1))
@@ -1359,10 +1477,16 @@ class FunctionTranslator:
                 ea = self.as_mint(a, self.ex(a, s, env, G))
                 eb = self.as_mint(b, self.ex(b, s, env, G), shift_amount=op in ("<<", ">>"))
                 return self.mint_op(node, op, ea, eb)
-            if op in ("<<", ">>", "&", "%") and c_type_name(node) == "unsigned long":
+            if op in ("<<", ">>", "&", "%", "/") and c_type_name(node) == "unsigned long":
                 return self.nat_op(node, op, self.ex(a, s, env, G), self.ex(b, s, env, G))
             if op == "+":
                 ea, eb = self.ex(a, s, env, G), self.ex(b, s, env, G)
+                if self.getter is not None and eb.kind in PTR_KINDS:
+                    ea, eb, a, b = eb, ea, b, a
+                if self.getter is not None and ea.kind in PTR_KINDS:          # P + e
+                    if eb.kind not in ("nat", "int", "intcond") or (eb.kind == "int" and eb.lit < 0):
+                        refuse(node, "pointer plus something that is not a size_t / a non-negative literal")
+                    return Ex(ea.kind, "ptr_add %s %s" % (par(ea.term), par(self.as_kind(b, eb, "nat").term)))
                 if ea.kind == "nat" and eb.kind == "int" and eb.lit == 1:
                     return Ex("nat", "S %s" % par(ea.term))
                 if ea.kind == "nat" and eb.kind in ("nat", "int"):
@@ -1436,7 +1560,7 @@ class FunctionTranslator:
         return Ex("mint", "%s %s %s" % (fn, par(ea.term), par(eb.term)), rng=rng)
 
     def nat_op(self, node, op, ea, eb):
-        """>> << % by a literal and & on size_t (nat: no wrap-around, so << needs a bound)."""
+        """>> << % / by a literal and & on size_t (nat: no wrap-around, so << needs a bound)."""
         if ea.kind == "int" and op == "&":
             ea, eb = eb, ea
         if ea.kind != "nat":
@@ -1447,6 +1571,11 @@ class FunctionTranslator:
                 refuse(node, "'&' of a size_t and a %s" % eb.kind)
             ubs = [u for u in (ea.ub, eb.ub) if u is not None]
             return Ex("nat", "Nat.land %s %s" % (par(ea.term), par(eb.term)), ub=min(ubs) if ubs else None)
+        if op == "/":                    # size_t division by a positive literal: Nat.div
+            if eb.kind != "int" or not 1 <= eb.lit < 2 ** 31:
+                refuse(node, "'/' on a size_t by something that is not a positive literal")
+            return Ex("nat", "%s / %d" % (opnd(ea.term), eb.lit),
+                      ub=None if ea.ub is None else ea.ub // eb.lit)
         if eb.kind != "int" or not 0 <= eb.lit < 31:
             refuse(node, "'%s' on a size_t by something that is not a small literal" % op)
         c = eb.lit
@@ -1499,6 +1628,39 @@ class FunctionTranslator:
             refuse(node, "string literal with an escape or a non-ASCII character")
         return "[%s]%%N" % "; ".join(str(ord(c)) for c in spelled[1:-1])
 
+    SIMPLE_ESCAPES = {"n": 10, "r": 13, "t": 9, "0": 0, "\\": 92, '"': 34, "'": 39, "a": 7, "b": 8,
+                      "f": 12, "v": 11}
+
+    def c_string_bytes(self, node):
+        """Bytes of a narrow string literal (simple escapes and \\xHH accepted), WITHOUT the
+        terminating NUL; checked against the size of its array type."""
+        spelled = node.get("value", "")
+        if not (len(spelled) >= 2 and spelled[0] == '"' and spelled[-1] == '"'):
+            refuse(node, "string literal with a prefix")
+        body, out, i = spelled[1:-1], [], 0
+        while i < len(body):
+            ch = body[i]
+            if ch == '"' or not 32 <= ord(ch) < 127:
+                refuse(node, "string literal that is not one plain ASCII literal")
+            if ch != "\\":
+                out.append(ord(ch))
+                i += 1
+                continue
+            nxt = body[i + 1:i + 2]
+            if nxt == "x" and re.fullmatch(r"[0-9a-fA-F]{2}", body[i + 2:i + 4]) and \
+                    not re.match(r"[0-9a-fA-F]", body[i + 4:i + 5]):
+                out.append(int(body[i + 2:i + 4], 16))
+                i += 4
+            elif nxt in self.SIMPLE_ESCAPES and not (nxt == "0" and re.match(r"[0-7]", body[i + 2:i + 3])):
+                out.append(self.SIMPLE_ESCAPES[nxt])
+                i += 2
+            else:
+                refuse(node, "string literal with an escape sequence that is not supported")
+        m = re.fullmatch(r"(?:const )?char\[(\d+)\]", node.get("type", {}).get("qualType", ""))
+        if not m or int(m.group(1)) != len(out) + 1:
+            refuse(node, "string literal whose array type does not match its spelling")
+        return "[%s]%%N" % "; ".join(str(b) for b in out)
+
     def optional_string(self, node, s, env, G):
         """node = x->f with (kind of x, f) in OPTIONAL_STRINGS -> the Coq term (an option), else None."""
         n = strip_casts(node)
@@ -1536,7 +1698,10 @@ class FunctionTranslator:
 
     def value_ex(self, node, kind, s, env, G):
         """Translate `node` as a value of the given kind (an Ex of that kind)."""
-        e = self.ex(node, s, env, G)
+        return self.as_kind(node, self.ex(node, s, env, G), kind)
+
+    def as_kind(self, node, e, kind):
+        """Give the lifted expression e the kind it is used at (literals, c ? lit : lit)."""
         if e.kind == "intcond":
             ct, x, y = e.term
             tx = self.coerce(node, Ex("int", None, lit=x), kind).term
@@ -1573,6 +1738,8 @@ class FunctionTranslator:
         e = self.ex(node, s, env, G)
         if e.kind in ("bool", "truth", "fnptr"):
             return e.term
+        if e.kind in PTR_KINDS:
+            return "match %s with None => false | Some _ => true end" % e.term
         if e.kind == "int":
             return "true" if e.lit != 0 else "false"
         if e.kind == "nat":
@@ -1648,7 +1815,7 @@ class FunctionTranslator:
                 refuse(node, "pointer comparison other than == / != NULL")
             if p.kind == "fnptr":
                 return p.term if op == "!=" else neg(p.term)
-            if p.kind == "cmdptr":
+            if p.kind == "cmdptr" or p.kind in PTR_KINDS:
                 yes, no = ("false", "true") if op == "!=" else ("true", "false")
                 return "match %s with None => %s | Some _ => %s end" % (p.term, yes, no)
             refuse(node, "comparison of a %s with NULL" % p.kind)
@@ -1816,6 +1983,14 @@ class StatementTranslator(FunctionTranslator):
                     refuse(node, "a wrapper that calls a wrapper")
                 return "Some (%s)" % term
             return "(@None hcall)"
+        if self.mode == "opt" and self.ret_kind in PTR_KINDS + ("varidx",):
+            e = self.ex(value_node, s, env, G)
+            if e.kind == "null":
+                return self.none()
+            if e.kind != self.ret_kind:
+                refuse(node, "the returned pointer is a %s, the mapping table says %s"
+                       % (e.kind, self.ret_kind))
+            return e.term if e.kind in PTR_KINDS else "Some %s" % par(e.term)
         if self.mode == "opt" and self.ret_kind in ("cmdrecopt", "cmdptr"):
             call = strip_casts(value_node)
             if call.get("kind") == "CallExpr" and self.callee_name(call) in POINTER_VALUE_HELPERS \
@@ -1840,7 +2015,8 @@ class StatementTranslator(FunctionTranslator):
 
     def none(self):
         """None at the result type of a pure function (explicit: it may be all a branch says)."""
-        inner = {"cmdrecopt": "cmd", "cmdptr": "nat"}.get(self.ret_kind) or COQ_TYPE[self.ret_kind]
+        inner = {"cmdrecopt": "cmd", "cmdptr": "nat", "bufptr": "bufptr",
+                 "strptr": "strptr"}.get(self.ret_kind) or COQ_TYPE[self.ret_kind]
         return "(@None %s)" % inner
 
     def outs(self, env):
@@ -2040,6 +2216,12 @@ class StatementTranslator(FunctionTranslator):
         if kind == "DeclStmt":
             lets = []
             for d in S.get("inner", []):
+                if self.getter is not None and d.get("kind") == "VarDecl" and \
+                        d.get("storageClass") == "static":
+                    env = dict(env)
+                    env[d["id"]] = (self.static_literal(d), "strptr")
+                    self.local_names[d["id"]] = d.get("name", "anon")
+                    continue
                 if d.get("kind") != "VarDecl" or d.get("storageClass"):
                     refuse(d, "declaration other than a plain local variable")
                 self.local_names[d["id"]] = d.get("name", "anon")
@@ -2420,6 +2602,23 @@ class StatementTranslator(FunctionTranslator):
         n = strip(S)
         return n.get("kind") == "CStyleCastExpr" and n.get("castKind") == "ToVoid" and \
             strip_casts(n["inner"][0]).get("kind") == "DeclRefExpr"
+
+    def static_literal(self, d):
+        """static const char *x = "LIT";  /  static const char x[] = "LIT";  with x never assigned:
+        x is a pointer to the first byte of the literal."""
+        q = d.get("type", {}).get("qualType", "")
+        if not (q == "const char *" or re.fullmatch(r"const char\[\d+\]", q)):
+            refuse(d, "static local of type '%s' (only a constant string is supported)" % q)
+        if d["id"] in self.written_locals:
+            refuse(d, "the static local '%s' is assigned" % d.get("name"))
+        if d.get("init") != "c" or len(d.get("inner", [])) != 1:
+            refuse(d, "static local without a string literal as initialiser")
+        init = d["inner"][0]
+        while init.get("kind") == "ImplicitCastExpr" and init.get("castKind") in ("NoOp", "ArrayToPointerDecay"):
+            init = init["inner"][0]
+        if init.get("kind") != "StringLiteral":
+            refuse(d, "static local without a string literal as initialiser")
+        return "Some (%s, 0)" % self.c_string_bytes(init)
 
     def kind_of_type(self, d):
         t = d.get("type", {})
@@ -3239,6 +3438,11 @@ def find_mode(tr, decl, body_items):
     """void / const (all returns return the same enumerator) / pair."""
     fn_type = decl.get("type", {}).get("qualType", "")
     ret = fn_type.split("(")[0].strip()
+    if tr.getter is not None:             # pure: state -> option T
+        if ret not in GETTER_RETURN_TYPES[tr.getter[0]]:
+            refuse(decl, "return type '%s' of a getter the mapping table lists as %s" % (ret, tr.getter[0]))
+        tr.mode, tr.ret_kind = "opt", tr.getter[0]
+        return
     if ret == "void":
         tr.mode = "void"
         return
@@ -3361,6 +3565,8 @@ def translate_function(fn, decls, defines_ok, defined_in_tu=frozenset(), aux=Non
         reading = prologue or as_aux == "_rd"
         tr = StatementTranslator(fn, d, defines_ok, reading)
         tr.defined_in_tu, tr.aux = defined_in_tu, aux
+        if fn in GETTER_FUNCTIONS and as_aux is None and fragment is None:
+            tr.getter = GETTER_FUNCTIONS[fn]
         params = [c for c in d["inner"] if c.get("kind") == "ParmVarDecl"]
         body = [c for c in d["inner"] if c.get("kind") == "CompoundStmt"][0]
         if d.get("variadic") or not params or \
@@ -3429,7 +3635,7 @@ def translate_function(fn, decls, defines_ok, defined_in_tu=frozenset(), aux=Non
                                 fragment[0] if fragment else "")
         tr.gname_base = gname[2:]
         rtype = "state * %s" % COQ_TYPE[tr.ret_kind] if tr.mode == "pair" else \
-            COQ_TYPE[tr.ret_kind] if tr.ret_kind in ("cmdrecopt", "cmdptr") else \
+            COQ_TYPE[tr.ret_kind] if tr.ret_kind in ("cmdrecopt", "cmdptr") + PTR_KINDS else \
             "option %s" % COQ_TYPE[tr.ret_kind] if tr.mode == "opt" else "state"
         if tr.out_ids:
             if tr.mode != "pair":
@@ -3463,6 +3669,8 @@ def translate_function(fn, decls, defines_ok, defined_in_tu=frozenset(), aux=Non
         ch = ["(ch : N)"] if reading else ["(code : Z)"] if post else []
         if tr.oracle is not None:
             ch = ["(ans : %s)" % tr.oracle[1]] + (["(env : cb_effect)"] if tr.oracle[2] else [])
+        if tr.getter is not None and tr.getter[1]:
+            binders = ["(junk : nat)"] + binders      # desc->unsolicited_buf_size in shared mode
         text = "(* cat.c:%s-%s  %s *)\n%sDefinition %s %s : %s :=\n%s.\n" % (
             first, last, d.get("type", {}).get("qualType", "").replace("*)", "* )"),
             "".join(tr.pre_defs), gname,
@@ -3953,7 +4161,7 @@ def translate(repo_src_dir, functions=None):
     """Translate the handler functions of <repo_src_dir>/cat.c.
     -> (coq_text, report); report[fn]['status'] in {'translated','unsupported','missing'}."""
     functions = HANDLER_FUNCTIONS + POST_CALL_FUNCTIONS + list(DISPATCH_FUNCTIONS) + [ENUM_VALUES] \
-        + API_FUNCTIONS + [SERVICE_BRACKET, INIT_FUNCTION] if functions is None else functions
+        + API_FUNCTIONS + [SERVICE_BRACKET, INIT_FUNCTION, BUFFER_REGIONS] if functions is None else functions
     src = os.path.join(repo_src_dir, "cat.c")
     header = GEN_HEADER % {"source": src, "lp": GEN_LOGICAL_PATH}
     defs, enums, err = load_translation_unit(repo_src_dir)
@@ -3965,6 +4173,16 @@ def translate(repo_src_dir, functions=None):
     for fn in functions:
         if fn == ENUM_VALUES:
             text, report[fn] = translate_enum_values(enums)
+        elif fn == BUFFER_REGIONS:
+            bad = [g for g in REGION_GETTERS if report.get(g, {}).get("status") != "translated"]
+            if bad:
+                text, report[fn] = None, {"status": "unsupported",
+                                          "why": "the region lemma needs the translation of " + ", ".join(bad)}
+            else:
+                text = "(* %s: the region lemma is stated on g_%s (HandlerTie.v) *)\n" % (
+                    fn, ", g_".join(REGION_GETTERS))
+                report[fn] = {"status": "translated", "coq_name": None, "lines": [None, None],
+                              "mode": "lemma", "const_status": None}
         elif fn == INIT_FUNCTION:
             text, report[fn] = translate_init(fn, defs.get(fn, []), defines_ok, frozenset(defs), aux)
         elif fn in DISPATCH_FUNCTIONS:
@@ -4105,6 +4323,9 @@ def run_handler_tie(repo_src_dir, workdir, coq_dir, template_path=None, tie_src_
         "lines": {f: report[f]["lines"] for f in translated},
         # helpers whose correspondence with the model function of the same name is assumed
         "assumed_helpers": ASSUMED_HELPERS,
+        # .. every one of which is tied by a sibling translator (helper -> the tool that ties it)
+        "assumed_helpers_tied_elsewhere": {h: TIED_ELSEWHERE[h] for h in ASSUMED_HELPERS if h in TIED_ELSEWHERE},
+        "assumed_helpers_untied": [h for h in ASSUMED_HELPERS if h not in TIED_ELSEWHERE],
         # helpers outside the mapping table that were translated on the fly, per caller
         "auxiliary": {f: report[f]["auxiliary"] for f in translated if report[f].get("auxiliary")},
         "files": {"generated": os.path.join(workdir, "HandlerGen.v"),
